@@ -44,6 +44,10 @@ func (s *state) errorf(format string, args ...interface{}) {
 }
 
 func (s *state) errFromNode(format string, args ...interface{}) error {
+	if s.tmpl.Node == nil {
+		// EvalExpr runs outside any template: there is no file position to report
+		return fmt.Errorf(format, args...)
+	}
 	return errortypes.NewErrFilePosf(
 		s.registry.Filename(s.tmpl.Node.Name),
 		s.registry.LineNumber(s.tmpl.Node.Name, s.node),
@@ -54,6 +58,9 @@ func (s *state) errFromNode(format string, args ...interface{}) error {
 }
 
 func (s *state) callAnnotation() string {
+	if s.tmpl.Node == nil {
+		return "expression"
+	}
 	return fmt.Sprintf("template %s:%d", s.tmpl.Node.Name,
 		s.registry.LineNumber(s.tmpl.Node.Name, s.node))
 }
